@@ -19,12 +19,16 @@ import (
 
 // C09: priority cli > env > JSON (file named by -config, else CFG_CONFIG_B64) > tag default.
 //
-//	E <intsize> <vec> <cfgfile> <b64set> <ok> <rest> <help> <n>
+//	E <intsize> <callno> <unchanged> <vec> <cfgfile> <b64set> <ok> <rest> <help> <n>
 //	  { <kind> <group> <goname> <tag> <hname> <hdef> <bound> <usage> <init> <envhand> <envobs> <env> <jfile> <jb64> <final> <oracle> }*n
 //
 // group/goname/tag: where the field sits and its `flag` tag (the model derives name, default, usage and env name from
 // these); hname/hdef/envhand: the same as written by hand from the documentation; bound: Lookup(hname).Value.Set(probe) on a
 // throw-away instance changes exactly this field; usage/envobs: Flag.Usage/Flag.Env; init: the field right after NewFlagSet.
+//
+// callno/unchanged: histories of Parse calls on ONE FlagSet — callno 0 is the first Parse on a fresh FlagSet, callno >= 1 a
+// later Parse on the same FlagSet (its own vector, environment and JSON carriers); unchanged: the struct's fields are the
+// same as after the previous call.
 //
 // hex fields; "-" empty string, "~" none, "." empty list; lists comma separated.
 // oracle: text:canon pairs for every text offered to the field (default, cli incl. overwritten
@@ -537,7 +541,8 @@ func optHex(p *string) string {
 var c09EnvMu sync.Mutex
 
 type c09Case struct {
-	typ      int  // index into c09Makers: A, B, C, D1, D2, D3
+	failTail []string // tokens placed right after the flags that make argParse fail (histories: fail, then retry)
+	typ      int      // index into c09Makers: A, B, C, D1, D2, D3
 	prefill  bool // the struct handed to NewFlagSet is not all-zero
 	help     []string // occurrences of the built-in -help on the command line
 	fields   []c09Field
@@ -550,8 +555,17 @@ type c09Case struct {
 	cfgSpell int
 }
 
+// c09Session: one struct + FlagSet that receives several Parse calls
+type c09Session struct {
+	ptr    any
+	fs     *config.FlagSet
+	inits  []string
+	callno int
+	prev   []string // canonical field values after the previous call
+}
+
 // run one case against the real code; returns the case line fields and whether Parse succeeded / panicked
-func c09Run(e *hk.Env, g *c09Gen, c *c09Case, dir string) (line []string, ok bool, note string) {
+func c09Run(e *hk.Env, g *c09Gen, c *c09Case, dir string, sess *c09Session) (line []string, ok bool, note string) {
 	r := g.r
 	// command line: one group of tokens per assignment, groups in random order (per field order kept)
 	type grp struct {
@@ -583,6 +597,8 @@ func c09Run(e *hk.Env, g *c09Gen, c *c09Case, dir string) (line []string, ok boo
 		sp := [][]string{{"-config=" + cfgPath}, {"--config=" + cfgPath}, {"-config", cfgPath}, {"--config", cfgPath}}[c.cfgSpell%4]
 		groups = append(groups, grp{sp, -1})
 	}
+	nGroupsShuffled := len(groups)
+	_ = nGroupsShuffled
 	// shuffle keeping the relative order of the groups of one field
 	for i := len(groups) - 1; i > 0; i-- {
 		j := r.Intn(i + 1)
@@ -603,6 +619,7 @@ func c09Run(e *hk.Env, g *c09Gen, c *c09Case, dir string) (line []string, ok boo
 	for _, gr := range groups {
 		vec = append(vec, gr.toks...)
 	}
+	vec = append(vec, c.failTail...) // still among the flags: makes argParse fail after the mentions in front of it
 	vec = append(vec, c.tail...)
 
 	// JSON carriers
@@ -662,12 +679,19 @@ func c09Run(e *hk.Env, g *c09Gen, c *c09Case, dir string) (line []string, ok boo
 		setenv("CFG_HELP", "true")
 	}
 
-	ptr := c09Makers[c.typ]()
-	val := reflect.ValueOf(ptr).Elem()
-	if c.prefill {
-		c09Prefill(val)
+	if sess == nil {
+		sess = &c09Session{}
 	}
-	inits := make([]string, len(c.fields))
+	if sess.ptr == nil {
+		sess.ptr = c09Makers[c.typ]()
+		if c.prefill {
+			c09Prefill(reflect.ValueOf(sess.ptr).Elem())
+		}
+		sess.inits = make([]string, len(c.fields))
+	}
+	ptr := sess.ptr
+	val := reflect.ValueOf(ptr).Elem()
+	inits := sess.inits
 	var fs *config.FlagSet
 	var perr error
 	panicked := ""
@@ -677,17 +701,39 @@ func c09Run(e *hk.Env, g *c09Gen, c *c09Case, dir string) (line []string, ok boo
 				panicked = fmt.Sprint(rec)
 			}
 		}()
-		var err error
-		fs, err = config.NewFlagSet(ptr)
-		if err != nil {
-			perr = fmt.Errorf("NewFlagSet: %w", err)
-			return
+		if sess.fs == nil && sess.callno == 0 {
+			f0, err := config.NewFlagSet(ptr)
+			if err != nil {
+				perr = fmt.Errorf("NewFlagSet: %w", err)
+				return
+			}
+			sess.fs = f0
+			for i, f := range c.fields {
+				inits[i] = c09Canon(val, f.goPath)
+			}
 		}
-		for i, f := range c.fields {
-			inits[i] = c09Canon(val, f.goPath)
+		fs = sess.fs
+		if fs == nil {
+			perr = fmt.Errorf("NewFlagSet failed earlier")
+			return
 		}
 		perr = fs.Parse(append([]string(nil), vec...))
 	}()
+	callno := sess.callno
+	sess.callno++
+	now := make([]string, len(c.fields))
+	for i, f := range c.fields {
+		now[i] = c09Canon(val, f.goPath)
+	}
+	unchanged := "1"
+	if callno > 0 {
+		for i := range now {
+			if now[i] != sess.prev[i] {
+				unchanged = "0"
+			}
+		}
+	}
+	sess.prev = now
 	if panicked != "" {
 		return nil, false, "PANIC " + panicked
 	}
@@ -707,9 +753,9 @@ func c09Run(e *hk.Env, g *c09Gen, c *c09Case, dir string) (line []string, ok boo
 	if ok {
 		help = map[bool]string{false: "0", true: "1"}[fs.ShowUsage()]
 	}
-	line = []string{"E", strconv.Itoa(strconv.IntSize), joinHex(vec), cf, map[bool]string{false: "0", true: "1"}[c.useB64], map[bool]string{false: "0", true: "1"}[ok], rest, help, strconv.Itoa(len(c.fields))}
+	line = []string{"E", strconv.Itoa(strconv.IntSize), strconv.Itoa(callno), unchanged, joinHex(vec), cf, map[bool]string{false: "0", true: "1"}[c.useB64], map[bool]string{false: "0", true: "1"}[ok], rest, help, strconv.Itoa(len(c.fields))}
 	if c.useFile && c.fileGone {
-		line[3] = hk.Hxs(cfgPath + ".missing") // the model's file oracle knows no such file
+		line[5] = hk.Hxs(cfgPath + ".missing") // the model's file oracle knows no such file
 		// (the command line carries cfgPath, which does not exist either)
 	}
 	bounds := c09Bindings(c)
@@ -866,9 +912,18 @@ func runC09(e *hk.Env) error {
 	carrierHist := map[string]int{}
 	distinct := map[string]struct{}{}
 	prefilled := 0
+	var sess *c09Session
+	secondNil, secondRefused := 0, 0
 	emit := func(c *c09Case) {
-		line, ok, note := c09Run(e, g, c, dir)
+		line, ok, note := c09Run(e, g, c, dir, sess)
 		total++
+		if sess != nil && sess.callno > 1 {
+			if ok {
+				secondNil++
+			} else {
+				secondRefused++
+			}
+		}
 		if c.prefill {
 			prefilled++
 		}
@@ -1067,6 +1122,62 @@ func runC09(e *hk.Env) error {
 		emit(c)
 	}
 	e.Stats["random_cases"] = nRandom
+	// (4) histories: several Parse calls on ONE FlagSet — a first call that fails after having recorded mentions (undefined
+	// flag, missing argument, malformed token, missing -config file, unparsable text) or succeeds, then a second call with
+	// its own vector, environment and JSON carriers
+	nHist := 500
+	if e.Thorough() {
+		nHist = 8000
+	}
+	t2 := total
+	for i := 0; i < nHist; i++ {
+		typ := []int{0, 0, 1, 2, 3, 4, 5}[r.Intn(7)]
+		c1 := mk(typ)
+		carriers(c1, r.Intn(4))
+		c1.tail = nil
+		c1.ch = make([]c09Choice, len(c1.fields))
+		switch i % 6 {
+		case 1:
+			c1.failTail = []string{"-nosuch"}
+		case 2:
+			for _, f := range c1.fields {
+				if f.kind != "bool" {
+					c1.failTail = []string{"--" + f.name} // flag needs an argument
+				}
+			}
+		case 3:
+			c1.failTail = []string{"---bad"}
+		case 4:
+			if c1.useFile {
+				c1.fileGone = true
+			} else {
+				c1.failTail = []string{"-nosuch=1"}
+			}
+		case 5:
+			g.allowInvalid = true
+		}
+		randomOthers(c1, -1, 30+r.Intn(50))
+		c2 := mk(typ)
+		c2.prefill = c1.prefill
+		carriers(c2, r.Intn(4))
+		c2.ch = make([]c09Choice, len(c2.fields))
+		randomOthers(c2, -1, r.Intn(40))
+		sess = &c09Session{}
+		emit(c1)
+		emit(c2)
+		if r.Chance(20) {
+			c3 := mk(typ)
+			c3.prefill = c1.prefill
+			c3.ch = make([]c09Choice, len(c3.fields))
+			randomOthers(c3, -1, 0)
+			emit(c3)
+		}
+		sess = nil
+	}
+	e.Stats["history_calls"] = total - t2
+	e.Stats["histories"] = nHist
+	e.Stats["later_calls_refused"] = secondRefused
+	e.Stats["later_calls_accepted"] = secondNil
 	e.Stats["cases"] = total
 	e.Stats["parse_ok"] = okCount
 	e.Stats["parse_error"] = errCount
